@@ -24,21 +24,48 @@ def showRun1 (sfx : String) (r : List Event × Ret) : List (String × String) :=
    ("ret" ++ sfx, s!"resp={optNat r.2.resp} err={optNat r.2.err}"),
    ("trace" ++ sfx, " ".intercalate (r.1.map showEvent))]
 
+def showView : View → String
+  | .origNoBody => "o/nobody"
+  | .origFull => "o/full"
+  | .origDrained => "o/drained"
+  | .cloneFull => "c/full"
+
+/-- which request object and which body every attempt was handed (model-level observable: the property does not
+    speak about it, the code after 371dec3 does) -/
+def showViews (sfx : String) (b : ReqBody) (r : List Event × Ret) : List (String × String) :=
+  [("views" ++ sfx, " ".intercalate ((views b r.1).map showView))]
+
 /-- the middleware value is a pure function of (n, d, next): every request through the same instance
     runs the same loop from attempt 0 (the harness sends three requests through one instance) -/
 def showRun (r : List Event × Ret) : List (String × String) :=
   showRun1 "" r ++ showRun1 "2" r ++ showRun1 "3" r
 
+/-- the request bodies of the harness's four passes: none (GET), replayable (POST built by net/http), a stream
+    without GetBody (PUT), replayable with a `GetBody` that fails before attempt `k` (0 = never) -/
+def passBodies (k : Nat) : List (String × ReqBody) :=
+  [("", .none), ("2", .replay none), ("3", .stream), ("4", .replay (if k = 0 then none else some k))]
+
+def showRunB (script : Nat → Outcome) (n : Int) (k : Nat) : List (String × String) :=
+  (passBodies k).flatMap (fun (sfx, b) =>
+    let r := retryB script n b
+    (if sfx == "4" then showRun1 sfx r else []) ++ showViews sfx b r)
+
 /-- `(retry <n> (script o0 o1 …))` -/
 def retryCase (id : String) (payload : List Sexp) : List String :=
-  match payload with
-  | [nS, .list (.atom "script" :: os)] =>
+  let go (nS : Sexp) (os : List Sexp) (k : Nat) : List String :=
     match nS.asInt?, os.mapM (fun o => o.asAtom?.bind parseOutcome) with
     | some n, some outs =>
       let script : Nat → Outcome := fun i => outs.getD i .err
-      if n < 0 then both id (showRun (retry script n)) [] "Out"
-      else both id (showRun (retry script n)) (showRun (spec script n.toNat))
+      if n < 0 then both id (showRun (retry script n) ++ showRunB script n k) [] "Out"
+      else both id (showRun (retry script n) ++ showRunB script n k)
+        (showRun (spec script n.toNat) ++ showRun1 "4" (specB script n.toNat (.replay (if k = 0 then none else some k))))
     | _, _ => err id "bad-retry-case"
+  match payload with
+  | [nS, .list (.atom "script" :: os)] => go nS os 0
+  | [nS, .list (.atom "script" :: os), .list [.atom "getbody", kS]] =>
+    match kS.asInt? with
+    | some k => go nS os k.toNat
+    | none => err id "bad-retry-case"
   | _ => err id "bad-retry-case"
 
 end ShootVerif.Drive
